@@ -189,10 +189,16 @@ def Mem.write {α : Type} (m : Mem α) (p : Int) (x : α) : Mem α := fun q => i
 
 namespace ElemIt
 /-- the addresses visited by `std::for_each(first, last, f)` on elements iterators: `for(; first != last; ++first) f(*first);`
-    (`!=` compares `n_`, array_ref.hpp:859-865).  `fuel` bounds the loop; it is `last - first`. -/
-def walk (it e : ElemIt) : Nat → List Int
-  | 0 => []
-  | fuel + 1 => if it.eq e then [] else it.current :: walk it.inc e fuel
+    (`!=` compares `n_`, array_ref.hpp:859-865).  `fuel` bounds the loop; it is `last - first`.
+    `none` = `operator++` hit a division by zero inside `from_linear_`. -/
+def walk (it e : ElemIt) : Nat → Option (List Int)
+  | 0 => some []
+  | fuel + 1 =>
+    if it.eq e then some []
+    else do
+      let it' ← it.inc
+      let r ← walk it' e fuel
+      pure (it.current :: r)
 end ElemIt
 
 namespace ArrIt
@@ -223,7 +229,7 @@ def serialAddrs (v : View) (k : ViewKind) : Option (List Int) :=
     let r := ElemRange.ofView v
     let b ← r.begin'
     let e ← r.end'
-    pure (b.walk e (e.diff b).toNat)
+    b.walk e (e.diff b).toNat
 
 /-- `ar & elem` on the elements at the given addresses, in that order -/
 def serializeAt (c : Codec τ α) (ar : Archive τ) (m : Mem α) : List Int → Option (Archive τ × Mem α)
